@@ -65,9 +65,9 @@ Fixpoint dec_triples (l : list N) : list tri :=
   | _ => []
   end.
 
-(* np.any(triangles > num_vertices) *)
+(* np.any(triangles >= num_vertices) *)
 Definition refs_beyond (nv : N) (t : tri) : bool :=
-  let '(a, b, c) := t in (nv <? a) || (nv <? b) || (nv <? c).
+  let '(a, b, c) := t in (nv <=? a) || (nv <=? b) || (nv <=? c).
 
 Definition read_mesh (b : list N) : outcome (list tri * list tri) :=
   match b with
@@ -80,7 +80,7 @@ Definition read_mesh (b : list N) : outcome (list tri * list tri) :=
       if negb (lenN tb mod 12 =? 0) then FormatErr else
       let ts := dec_triples tb in
       if existsb (refs_beyond nv) ts then FormatErr else Ok (dec_triples vb, ts)
-  | _ => Crash StructError       (* struct.unpack("<I", fewer than 4 bytes) *)
+  | _ => FormatErr               (* header = file.read(4); len(header) != 4 *)
   end.
 
 (* ---------- specification parser (format document) ---------- *)
@@ -125,37 +125,15 @@ Definition spec_parse_with (ok : N -> N -> bool) (b : list N) : option (list tri
 Definition spec_parse : list N -> option (list tri * list tri) :=
   spec_parse_with (fun nv i => i <? nv).
 
-(* ---------- the property on one byte string, and the guard ---------- *)
+(* ---------- the property on one byte string ---------- *)
 
 (* "reads back what the format says, and rejects everything else with the
    mesh-data error" *)
 Definition reader_conforms (b : list N) : Prop :=
   read_mesh b = match spec_parse b with Some m => Ok m | None => FormatErr end.
 
-Definition tri_has (n : N) (t : tri) : bool :=
-  let '(a, b, c) := t in (a =? n) || (b =? n) || (c =? n).
-
-(* some triangle index equals the vertex count while the file is otherwise
-   well formed (indices <= count): accepted by the reader, not by the format *)
-Definition index_eq_count (b : list N) : bool :=
-  match b with
-  | h0 :: h1 :: h2 :: h3 :: _ =>
-      match spec_parse_with (fun nv i => i <=? nv) b with
-      | Some (_, ts) => existsb (tri_has (unle32 h0 h1 h2 h3)) ts
-      | None => false
-      end
-  | _ => false
-  end.
-
-Definition reader_guard (b : list N) : bool :=
-  (4 <=? lenN b) && negb (index_eq_count b).
-
 (* well-formed mesh of the property statement *)
 Definition word_ok (n : N) : bool := n <? two32.
 Definition tri_all (p : N -> bool) (t : tri) : bool := let '(a, b, c) := t in p a && p b && p c.
 Definition mesh_wf (v t : list tri) : bool :=
   (lenN v <? two32) && forallb (tri_all word_ok) v && forallb (tri_all (fun i => i <? lenN v)) t.
-(* what the reader really accepts back *)
-Definition mesh_wf_lenient (v t : list tri) : bool :=
-  (lenN v <? two32) && forallb (tri_all word_ok) v &&
-  forallb (tri_all word_ok) t && forallb (tri_all (fun i => i <=? lenN v)) t.
